@@ -47,8 +47,13 @@ TIMES = [0.0, 1.0, 2.0]
 
 
 def make_data(seed, est, d, n):
-    rng = np.random.default_rng(seed)
-    X = np.round(rng.normal(size=(n, d)) * 256) / 256
+    # exactly representable coordinates (16 fractional bits), no coincident cells: coincident cells are a
+    # degenerate-input matter (C20), not a derivative matter
+    for attempt in range(50):
+        rng = np.random.default_rng(seed + 7919 * attempt)
+        X = np.round(rng.normal(size=(n, d)) * 65536) / 65536
+        if len(np.unique(X, axis=0)) == n:
+            break
     if est == "time":
         X = np.concatenate([X, np.repeat(TIMES, n // 3)[:, None]], axis=1)
     return X
@@ -81,6 +86,7 @@ class Stats:
         self.nontrivial = set()
         self.rel_tol = {}
         self.shapes = {}
+        self.reported = set()
 
     def ratio(self, kind, r, key):
         if r > self.worst.get(kind, (0.0, ""))[0]:
@@ -109,7 +115,11 @@ def check_predictor(ctx, cfg, p, X, xq, st, info=None):
         return tuple(np.asarray(o, dtype=float) for o in out) if isinstance(out, tuple) else np.asarray(out, dtype=float)
 
     def bad(sub, what, extra):
-        ctx.violation("%s|%s" % (keyb, sub), what, dict(base, **extra))
+        key = "%s|%s" % (keyb, sub)
+        if key in st.reported:          # one replay per (class, kernel, d, clause): the first failing row
+            return
+        st.reported.add(key)
+        ctx.violation(key, what, dict(base, **extra))
 
     # ---- finite-difference references and tolerances per row (from p(x) / p(x, t) alone)
     vals = call(xq)
